@@ -5,6 +5,12 @@
               CURRENT $VERIF_REPO/src/rbt.c (harness/C02/rbt_drv.c, ASan+UBSan) run the same histories;
               after EVERY operation both print return value, root, node count and the left/right/parent/
               colour record of every node (delta-encoded); the outputs must be identical.
+  2b. tie 2: translator tools/c2rbt.py (wired by tools/vrbt.py): the helpers of rbt.c (a_rbt_color, a_rbt_new_child,
+              a_rbt_set_parent_color, a_rbt_set_parent, a_rbt_set_black, a_rbt_set_parents), a_rbt_parent / a_rbt_init of rbt.h and
+              a_rbt_insert_adjust, a_rbt_remove_adjust, a_rbt_remove, a_rbt_insert, a_rbt_search with their loops regenerated as
+              checked heap programs from the current sources in both node layouts and proved (harness/C02/TieRbt*.v +
+              coq/C02/RbtTieLemmas*.v) to implement RbtDefs.insert / del (unlink + resolution) / find on every heap that lays
+              the tree out.
   3. oracle:  when the tie breaks, the property itself (root black, no red-red, equal black height, BST,
               parent links, element set, return values) is evaluated in Python on the C's full dump of
               the disagreeing cases, the corpus and a fresh batch; hits are shrunk by delta debugging.
@@ -16,9 +22,10 @@ from concurrent.futures import ThreadPoolExecutor
 from pathlib import Path
 
 try:
-    from tools import vlib
+    from tools import vlib, vrbt
 except ImportError:  # pragma: no cover
     import vlib
+    import vrbt
 
 PID = "C02"
 HARN = vlib.VERIF / "harness" / PID
@@ -520,6 +527,9 @@ def run(ctx):
             if f.exists():
                 f.unlink()
     proved = ctx.prove()
+    if proved:
+        # pointer level: the rebalancing code regenerated from the current rbt.c / rbt.h (both layouts) and proved to refine RbtDefs
+        vrbt.rbt_translate_and_tie(ctx)
     if proved and not ctx.quick:
         rc, out = vlib.sh(["coqchk", "-silent", "-o", "-Q", ".", "LibaV", "LibaV.Properties_C02"], cwd=vlib.COQ, timeout=900)
         ax = re.search(r"\* Axioms:\s*(.*?)\n\s*\n", out, flags=re.S)
@@ -659,8 +669,8 @@ def run(ctx):
     ctx.cov["trusted_base"].extend([
         "correspondence (checked, not proved): extracted model vs C after every operation; generator strength bounds it",
         "extraction (ExtrOcamlBasic only) and the hand-written drivers harness/C02/rbt_mdrv.ml, rbt_drv.c",
-        "pointer surgery of a_rbt_insert/_remove is not modelled statement by statement: heap_of (proved consistent) is "
-        "compared with the C's fields",
+        "heap_of (proved consistent, and proved to be a layout in the sense of the pointer-level tie: RbtTieLemmas.Repr_heap_of) "
+        "is compared with the C's fields after every operation; the pointer surgery itself is covered by the translator tie above",
         "ASan/UBSan as runtime observers (A_ASSUME expands to __builtin_unreachable under gcc 12: trapped by UBSan)"])
 
 
@@ -701,9 +711,29 @@ META = {
             "canonical heap has consistent parent links, no fault reachable (the A_ASSUME facts of a_rbt_remove_adjust - sibling "
             "non-null under deficit - are lemmas), removal invariant 'deficit => black height one less', logarithmic height. "
             "Tie: extracted model vs the real a_rbt_insert/remove/search: left/right/parent/colour/root/return value after EVERY "
-            "operation under ASan+UBSan (packed and unpacked parent configurations), exhaustive small histories + random.",
-    "note": "Trusted: Coq kernel; extraction (ExtrOcamlBasic only) + drivers; the recursive status-upward model stands for the "
-            "C's bottom-up loops and the pointer surgery is not modelled statement by statement - both are transferred to the C "
-            "by the exact per-operation heap comparison (checked on the generated histories, not proved). No axioms.",
-    "technique": "Rocq proof (structural induction, colour/black-height invariants, refinement to an abstract map) + extracted-model vs C exact heap correspondence",
+            "operation under ASan+UBSan (packed and unpacked parent configurations), exhaustive small histories + random. "
+            "Translator tie (tools/c2rbt.py, re-proved on every run, both node layouts): a_rbt_parent, a_rbt_init, a_rbt_color, "
+            "a_rbt_new_child, a_rbt_set_parent_color, a_rbt_set_parent, a_rbt_set_black, a_rbt_set_parents, a_rbt_insert_adjust, "
+            "a_rbt_remove_adjust, a_rbt_remove, a_rbt_insert and a_rbt_search are regenerated from the current rbt.c / rbt.h as checked "
+            "heap programs (cells left/right/parent/colour + root slot; the packed word parent_ split into its components by "
+            "arithmetic lemmas for 2-aligned pointers; A_RBT_PARENT, the whole word taken as a pointer, is an error on a black node; "
+            "A_ASSUME a check; loops on fuel) and proved: helpers = field operations for every state; each kind of iteration of the "
+            "insertion loop (root reached, black parent, case 1, case 3, case 2+3, mirrors) and of the removal fix-up loop (= "
+            "RbtDefs.fix_left / fix_right, cases 1-4) on EVERY heap that lays a tree out below a slot leaves the model's tree laid out "
+            "below the slot and touches nothing else; the unlink / successor splice of a_rbt_remove per shape; and the functions as "
+            "wholes: a_rbt_insert_adjust / a_rbt_insert = RbtDefs.insert, a_rbt_remove_adjust = the model's resolution of the deficit "
+            "along the path, a_rbt_remove = RbtDefs.unlink + resolution (what RbtDefs.del does once it has found the node), "
+            "a_rbt_search = RbtDefs.find - on every heap that lays out ANY tree with distinct node ids on which the model does not "
+            "fault (no red-black or search-tree invariant assumed; colours included, root slot updated, cells outside the tree "
+            "unchanged), with the comparator as a Gallina function that orders the argument against the nodes as the keys are ordered.",
+    "note": "Trusted: Coq kernel; extraction (ExtrOcamlBasic only) + drivers; the translator c2rbt about the C (its output is not "
+            "trusted about the model: every generated definition is tied by a theorem). The step from the recursive status-upward "
+            "model to the C's bottom-up loops and pointer surgery is now a set of theorems about the regenerated code (insert, "
+            "remove, search and everything they call); the per-operation heap comparison on generated histories remains as the "
+            "independent tie of the same model to the compiled C. Not covered by the translator tie: termination within a stated "
+            "fuel is a hypothesis (fuel > height / 2*height), the comparator is assumed pure and consistent with the keys, the "
+            "iteration functions of rbt.c (property C03). No axioms.",
+    "technique": "Rocq proof (structural induction, colour/black-height invariants, refinement to an abstract map) + translator tie "
+                 "(regenerated pointer code of insert / remove / search refines the tree model on every heap) + extracted-model vs C "
+                 "exact heap correspondence",
 }
